@@ -144,7 +144,7 @@ impl Hist {
         match &self.st.p.nodes[b] {
             Node::Leaf { .. } => true,
             Node::Op { post, kind, .. } => {
-                let has_children = flags_at_use[b].iter().any(|t| *t) || kind.forces_tracking();
+                let has_children = kind.result_tracked(flags_at_use[b].iter().any(|t| *t));
                 !has_children || *post != Some(false)
             }
         }
@@ -163,7 +163,7 @@ impl Hist {
                         flags[*h] = *on;
                     }
                     out[i] = args.iter().map(|a| flags[*a]).collect();
-                    let mut f = args.iter().any(|a| flags[*a]) || kind.forces_tracking();
+                    let mut f = kind.result_tracked(args.iter().any(|a| flags[*a]));
                     if kind.is_alias() {
                         f = flags[args[0]];
                         out[i] = vec![];
